@@ -318,6 +318,10 @@ def run(ctx):
             ctx.check(kws <= {"unversioned"} and not c.args, "R2.6", f"pack_obj:{b.guard_cls.split('.')[-1]}:_pack-arguments",
                       f"the serialiser calls _pack with {sorted(kws)}", c, f"_pack({', '.join(sorted(kws))})")
 
+    # ------------------------------------------------------------------ R2.7 elements of typed lists
+    from .packer_common import check_typedlist_pack
+    check_typedlist_pack(ctx, "R2.7")
+
 
 def _try_fold(prog, module, e):
     try:
